@@ -1161,6 +1161,59 @@ pub fn run_c18(toks: &[&str]) -> Lines {
                 nq += 1;
             }
         });
+        // export_with_expiration of this (possibly keyed) export: same content and key, only the expiry changes -- byte for byte
+        // before the footer, field for field in it -- and a manager holding it answers exactly like the one holding the export
+        {
+            let dir_x = tempfile::tempdir().unwrap();
+            let sf = mdb_shard::MDBShardFile::load_from_file(&dir_k.path().join(&name_k)).unwrap();
+            let x0 = std::time::SystemTime::now().duration_since(std::time::UNIX_EPOCH).unwrap().as_secs();
+            match sf.export_with_expiration(dir_x.path(), std::time::Duration::from_secs(7200)) {
+                Err(e) => why.push(format!("exp{}-export-with-expiration-failed:{:?}", ne, e)),
+                Ok(xf) => {
+                    let x1 = std::time::SystemTime::now().duration_since(std::time::UNIX_EPOCH).unwrap().as_secs();
+                    let x = std::fs::read(&xf.path).unwrap();
+                    let fo = ki.metadata.footer_offset as usize;
+                    if x.len() != w.len() || x[..fo.min(x.len())] != w[..fo] {
+                        why.push(format!("exp{}-export-with-expiration-changed-the-content", ne));
+                    }
+                    match MDBShardInfo::load_from_reader(&mut Cursor::new(&x)) {
+                        Err(_) => why.push(format!("exp{}-export-with-expiration-unreadable", ne)),
+                        Ok(xi) => {
+                            let mut want = ki.metadata.clone();
+                            want.shard_key_expiry = xi.metadata.shard_key_expiry;
+                            if xi.metadata != want {
+                                why.push(format!("exp{}-export-with-expiration-changed-the-footer", ne));
+                            }
+                            if xi.metadata.shard_key_expiry < x0 + 7200 || xi.metadata.shard_key_expiry > x1 + 7200 {
+                                why.push(format!("exp{}-export-with-expiration-expiry", ne));
+                            }
+                        },
+                    }
+                    match MDBShardInfo::load_from_reader(&mut Cursor::new(&x)) {
+                        Ok(xi) => out.push(("obs", format!("rex{} {}", ne, describe_bytes(&zero_times(&x, &xi), &xi)))),
+                        Err(_) => out.push(("obs", format!("rex{} unreadable", ne))),
+                    }
+                    rt.block_on(async {
+                        let mk = ShardFileManager::new_in_session_directory(dir_k.path()).await.unwrap();
+                        mk.refresh_shard_dir().await.unwrap();
+                        let mx = ShardFileManager::new_in_session_directory(dir_x.path()).await.unwrap();
+                        mx.refresh_shard_dir().await.unwrap();
+                        if mx.registered_shard_list().await.unwrap().len() != 1 {
+                            why.push(format!("exp{}-export-with-expiration-not-loaded", ne));
+                        } else if mk.registered_shard_list().await.unwrap().len() == 1 {
+                            for (qi, q) in ops.iter().filter(|q| q[0] == "qd").enumerate() {
+                                let qs = hashes(q[1]);
+                                let ak = mk.chunk_hash_dedup_query(&qs).await.unwrap();
+                                let ax = mx.chunk_hash_dedup_query(&qs).await.unwrap();
+                                if dump_seg(&ak) != dump_seg(&ax) {
+                                    why.push(format!("exp{}-qd{}-answer-changes-after-export-with-expiration:{}vs{}", ne, qi, dump_seg(&ak), dump_seg(&ax)));
+                                }
+                            }
+                        }
+                    });
+                },
+            }
+        }
         ne += 1;
     }
     // expiry arithmetic: `expire <created> <valid_for> <now-offset>` writes a keyed shard whose footer times are set
